@@ -30,6 +30,7 @@ import (
 
 	"github.com/cosmos72/gomacro/fast"
 	"github.com/cosmos72/gomacro/imports"
+	"verifh/c31core"
 	"verifh/vh"
 )
 
@@ -344,7 +345,7 @@ func runInterp(ir *fast.Interp, p prog) string {
 }
 
 func runOracle(a *vh.Args, repo string, progs []prog) ([]string, error) {
-	dir := a.Path("oracle")
+	dir := a.Path("oracle_c11")
 	os.MkdirAll(dir, 0o755)
 	var sb strings.Builder
 	sb.WriteString("// GENERATED by harness/cmd/c11: the same programs, compiled.\npackage main\n\n" + importSrc + "\nimport \"encoding/json\"\nimport \"os\"\n\n")
@@ -571,9 +572,8 @@ func main() {
 		"interpreted io.Reader through io.Copy/ioutil.ReadAll/io.ReadFull/bufio, interpreted io.Writer through fmt.Fprintf/io.WriteString/io.Copy; heap.Interface; callbacks run on goroutines not started by the interpreter: "+
 		"compiled parallelMap, time.AfterFunc, sync.Once, compiled inGoroutine; compiled std functions called with interpreted arguments), each run in the interpreter and compiled with go build (go 1.18 module), outputs compared; "+
 		"avoided class (known finding c11:proxy-unwrapped-into-empty-interface): a proxied interpreted value passed to a compiled parameter of type interface{}; corpus programs run first. "+
-		"Plus vtable cases: random interpreted method sets converted to 10 compiled interfaces, every proxy field called to identify the stored method (model: coq/C11 fill). "+
+		"Plus every method of every P_* proxy of imports.Packages called through its interface with PRNG arguments (recording closures in the fields). Plus vtable cases: random interpreted method sets converted to 10 compiled interfaces, every proxy field called to identify the stored method (model: coq/C11 fill). "+
 		"A program is non-trivial when at least one interpreted function or method was invoked by compiled code (all templates); distinct by SHA-256 of the source")
-	wd := vh.NewWatchdog(rep, 120*time.Second)
 	nProg, nVt := 120, 150
 	if a.Thorough() {
 		nProg, nVt = 3000, 2500
@@ -611,6 +611,7 @@ func main() {
 		os.Exit(2)
 	}
 	ir := newInterp()
+	wd := vh.NewWatchdog(rep, 300*time.Second) // started after the go build of the oracle and the imports (slow on a loaded machine)
 	for i, p := range progs {
 		wd.Beat(p)
 		got := runInterp(ir, p)
@@ -629,6 +630,8 @@ func main() {
 		}
 	}
 	vtableCases(a, rep, ir, rng, nVt)
+	// every method of every proxy struct called through its interface with PRNG arguments on recording closures (shared with C31)
+	rep.Extra["proxies_exercised"] = c31core.ExerciseProxies(rep, a, rng.Fork())
 	rep.Extra["corpus_programs"] = nCorpus
 	rep.Extra["generated_programs"] = nProg
 	rep.Write()
